@@ -41,7 +41,7 @@ import tempfile
 
 from hypothesis import strategies as st
 from twisted.internet import defer, error
-from twisted.python import failure, log as twlog
+from twisted.python import failure
 
 from vlib import wire
 from vlib.fakereactor import FakeReactor, exit_status
@@ -1029,8 +1029,7 @@ SCENARIOS = {
         [["conn", "ok"], ["own", "rej", 0], ["conn", "ok"]],
         [TO_100, TO_100],
         [["timeout"]],
-        [["exit", "signal", 9]],
-        [["err", 0]]]),
+        [["exit", "signal", 9]]]),
     "manual-delivery": (_cfg(auto=False), [
         [SKIP2, ["line"]],
         [["conn", "ok"], ["flush", 0], ["own", "ack", 0], ["flush", 0]],
@@ -1042,8 +1041,14 @@ SCENARIOS = {
         [["conn", "ok"], ["own", "ack", 0]],
         [TO_100],
         [["timeout"]],
-        [["exit", "code", 1]],
-        [["err", 0]]]),
+        [["exit", "code", 1]]]),
+    "stderr-kills": (_cfg(stdout=1), [
+        [["line"]],
+        [["conn", "ok"], ["own", "ack", 0], ["own", "ack", 0]],
+        [TO_100],
+        [["err", 0]],
+        [["timeout"]],
+        [["exit", "signal", 13]]]),
 }
 QUICK_SCENARIOS = {
     "core-race": (_cfg(stdout=1), [
@@ -1091,7 +1096,7 @@ MANIFEST = {
 
 def run(ctx):
     ctx.enumerate("launch", scenario_cases("core-race", QUICK_SCENARIOS), name="interleavings:core-race")
-    ctx.search("launch", cases(), quick=3000, thorough=8000)
+    ctx.search("launch", cases(), quick=2500, thorough=8000)
     if not ctx.quick():
         ctx.enumerate("launch", scenario_cases("core-race-caller-dir", QUICK_SCENARIOS),
                       name="interleavings:core-race-caller-dir")
